@@ -537,8 +537,14 @@ func GenExec(seed uint64, profile string, runIdx int) *RunSpec {
 		g.pCheck = Pick(r, []float64{0.2, 0.5, 0.8})
 	}
 	g.class = classFor(profile, runIdx, r)
+	// a quarter of the runs use constant outcome scripts: their verdicts are decided by the
+	// reference model (C03.r4/r5)
+	g.consts = r.Bool(0.25)
+	if profile == "C03" || profile == "C06" {
+		g.consts = r.Bool(0.45)
+	}
 
-	spec := &RunSpec{Engine: "exec", Seed: seed, SchedSeed: Mix(seed, 0x5c4ed), Profile: profile}
+	spec := &RunSpec{Engine: "exec", Seed: seed, SchedSeed: Mix(seed, 0x5c4ed), Profile: profile, Consts: g.consts}
 	np := 1
 	switch x := r.Intn(10); {
 	case x < 7:
@@ -573,6 +579,9 @@ func GenExec(seed uint64, profile string, runIdx int) *RunSpec {
 		spec.Plans = append(spec.Plans, p)
 	}
 	spec.Policy = g.policy()
+	if g.consts {
+		spec.Policy.DelayP, spec.Policy.ReplyP = 0, 0
+	}
 	spec.GraceMs = maxGrace(spec.Plans)
 	spec.Clients = g.clients(spec, profile)
 	return spec
